@@ -6,7 +6,10 @@ use tokio::io::{self, AsyncWrite, AsyncWriteExt};
 
 use self::chunks::write_chunks;
 use super::write_metadata;
-use crate::binning_index::index::reference_sequence::{Bin, Metadata};
+use crate::{
+    binning_index::index::reference_sequence::{Bin, Metadata},
+    io::writer::index::reference_sequences::bins::first_record_start_position,
+};
 
 pub(super) async fn write_bins<W>(
     writer: &mut W,
@@ -31,9 +34,9 @@ where
 
     writer.write_i32_le(n_bin).await?;
 
-    for (id, bin) in bins {
-        let first_record_start_position = index.get(id).copied().unwrap_or_default();
-        write_bin(writer, *id, first_record_start_position, bin).await?;
+    for (&id, bin) in bins {
+        let first_record_start_position = first_record_start_position(index, id);
+        write_bin(writer, id, first_record_start_position, bin).await?;
     }
 
     if let Some(m) = metadata {
